@@ -69,7 +69,16 @@ def search(chk, n_cases):
         bath = oqupy.Bath(op, corr)
         dkmax = rng.choice([None, None, 2])
         dt, n = 0.1, rng.randint(3, 6)
-        par = oqupy.TempoParameters(dt=dt, epsrel=eps, dkmax=dkmax, subdiv_limit=None)
+        tau_add = None
+        if it in (2, 4):
+            # every run (it == 2: TEMPO, it == 4: mean-field TEMPO): a memory cut-off with additional correlation time, more
+            # steps than the cut-off: trace and Hermiticity do not depend on the memory approximation
+            dkmax, n, tau_add = 2, 6, [np.inf, 0.25][it // 4]
+            if it == 4:
+                method = "meanfield"
+        elif dkmax is not None and rng.random() < 0.5:
+            tau_add = rng.choice([0.15, 1.0, np.inf])
+        par = oqupy.TempoParameters(dt=dt, epsrel=eps, dkmax=dkmax, add_correlation_time=tau_add, subdiv_limit=None)
         rho0 = rand_rho(rng, d, rng.choice(["pure", "mixed", "rank-deficient"]))
         syskind = rng.choice(["H", "lindblad", "td"])
         h0 = 0.5 * sx + 0.2 * sz
@@ -79,7 +88,7 @@ def search(chk, n_cases):
             sysm = oqupy.System(h0, gammas=[0.3, 0.1], lindblad_operators=[sm, sz])
         else:
             sysm = oqupy.TimeDependentSystem(lambda t: h0 + 0.4 * np.cos(2 * t) * sy, gammas=[lambda t: 0.1 * (1 + t)], lindblad_operators=[lambda t: sm])
-        info = {"method": method, "alpha": alpha, "T": T, "dkmax": dkmax, "system": syskind, "n": n}
+        info = {"method": method, "alpha": alpha, "T": T, "dkmax": dkmax, "add_correlation_time": tau_add, "system": syskind, "n": n}
         need_psd = dkmax is None
         try:
             if method == "tempo":
